@@ -46,18 +46,7 @@ def anchor_class(a, nvec):
     return "single"
 
 
-def op_nvec(op):
-    for k in ("d", "rv", "angle", "v", "r"):
-        if k in op and op[k] is not None:
-            v = op[k]
-            if op.get("form") == "euler":
-                return len(v) if isinstance(v, list) and isinstance(v[0], list) else 0
-            if isinstance(v, list) and v and isinstance(v[0], list):
-                return len(v)
-            if k == "angle" and isinstance(v, list):
-                return len(v)
-            return 0
-    return 0
+op_nvec = pathops.op_nvec
 
 
 class C09Session(Session):
